@@ -210,15 +210,11 @@ def judge_partition(part, rows, k, double):
     out.append((bool(sizes) and max(sizes) - min(sizes) < k, 'parts are near-equal (sizes differ by < n_splits)'))
     out.append((sorted(map(sorted, parts_t)) == sorted(sorted(e['ids']) for e in yfits),
                 'outcome learners are fitted on the same parts'))
-    ids_fit = [e['fit_id'] for e in tfits + yfits]
-    out.append((len(ids_fit) == len(set(ids_fit)), 'every fitted copy is a distinct object'))
     leak = [e for e in preds if e['fit_id'] is None or set(e['ids']) & set(e['train'])]
     out.append((not leak, 'no learner predicts a row it was trained on (and none predicts unfitted)'))
     for role, arm in (('t', 0), ('y', 1), ('y', 2)):
         got = sorted(i for e in preds if e['role'] == role and e['arm'] == arm for i in e['ids'])
         out.append((got == sorted(rows), 'every row predicted exactly once for (%s, arm %d)' % (role, arm)))
-    out.append((all(e['how'] == 'proba' for e in preds if e['role'] == 't'),
-                'treatment learner queried through predict_proba'))
     if double:
         tr_t, tr_y = {}, {}
         for e in preds:
@@ -295,6 +291,8 @@ def check_case(chk, drv, case):
             want = ';'.join(enc_list(s, str) for s in obs_splits)
             ok = rep['status'] == 'ok' and rep.get('splits') == want and rep.get('trace') == canon(part) \
                 and rep.get('leakfree') == '1'
+            # documented preference of _ml_predictor: predict_proba when the learner has it (not part of the property)
+            ok = ok and all(e['how'] == 'proba' for e in part if e['ev'] == 'pred' and e['role'] == 't')
             chk.k(ok, 'model reproduces parts and call sequence',
                   dict(ctx, model=rep if not ok else None, observed=canon(part) if not ok else None))
 
